@@ -1404,16 +1404,20 @@ def load(
     file_skip_types_raw = cast(
         Sequence[str] | None, root.attrs.get("_autoserialize_skip_types", [])
     )
+    def _import_dotted(name: str) -> type:
+        # 'pkg.module.Outer.Inner': the module/attribute split is not recorded, so try the
+        # longest importable module prefix and follow the remaining attributes
+        parts = name.split(".")
+        for i in range(len(parts) - 1, 0, -1):
+            try:
+                module = __import__(".".join(parts[:i]), fromlist=[parts[i]])
+            except ImportError:
+                continue
+            return operator.attrgetter(".".join(parts[i:]))(module)
+        raise ImportError(f"Cannot import skip type '{name}'")
+
     file_skip_types = (
-        tuple(
-            # Import each type by fully-qualified name from string
-            __import__(t.rpartition(".")[0], fromlist=[t.rpartition(".")[2]]).__dict__[  # type: ignore[index]
-                t.rpartition(".")[2]
-            ]
-            for t in file_skip_types_raw
-        )
-        if file_skip_types_raw
-        else tuple()
+        tuple(_import_dotted(t) for t in file_skip_types_raw) if file_skip_types_raw else tuple()
     )
 
     # Merge user-specified and file-stored skip lists/types (avoid duplicates)
